@@ -108,7 +108,7 @@ def correspond(ctx, cases, tag='corr', max_bytes=600000, workers=4):
 
     def run_chunk(k):
         body = HEADER + 'Definition cs : list bool := [\n' + ';\n'.join(t for _, t in chunks[k]) + '\n].\n' \
-            + 'Goal True. let r := eval vm_compute in (bad_cases cs) in idtac "@@BAD" r. exact I. Qed.\n'
+            + 'Goal True. let r := eval vm_compute in (bad_cases cs) in idtac "@@BAD" r "@@END". exact I. Qed.\n'
         ok, out = ctx.coq_eval(body, '%s_%d' % (tag, k), timeout=1200)
         return ok, out
     res = [None] * len(cases)
@@ -118,9 +118,10 @@ def correspond(ctx, cases, tag='corr', max_bytes=600000, workers=4):
     for k, (ok, out) in enumerate(outs):
         bad = None
         if ok:
-            for l in out.split('\n'):
-                if l.startswith('@@BAD'):
-                    bad = set(int(x) for x in re.findall(r'\d+', l[5:]))
+            # the list may be wrapped over many lines by Coq's pretty-printer: take everything up to the end marker
+            m = re.search(r'@@BAD(.*?)@@END', out, re.S)
+            if m:
+                bad = set(int(x) for x in re.findall(r'\d+', m.group(1)))
         if bad is None:
             all_ok = False
             ctx.oblige('correspondence chunk %d evaluates in Coq' % k, False, out[-3000:])
